@@ -45,7 +45,7 @@ def programs(tier):
     rf = tlc_generate("Gen_FoldProg")
     ext = {0, -1, 1, 2147483647, -2147483648}     # the extreme pairs always, the rest rotating with the seed
     texts += [c["text"] for i, c in enumerate(rf[0])
-              if tier == "thorough" or (c["x"] in ext and c["y"] in ext) or i % 6 == seed() % 6]
+              if tier == "thorough" or (c["x"] in ext and c["y"] in ext) or c["op"].startswith("z:") or i % 6 == seed() % 6]
     texts += shared_programs(tier, part=3)
     # small-scope exhaustiveness: every program of 2 / 3 instructions over five 12-symbol slices of the rule groups
     s2 = [c["text"] for c in tlc_generate("Gen_Slice", cfg="Gen_Slice2")[0]]
